@@ -237,6 +237,23 @@ Example c18_rollover_number_before_key_observation :
   (o3, cl3, map p_sn c3) = (ONoDecrypt, [], [Some 65534]).
 Proof. exact rollover_number_before_key_replay. Qed.
 
+(* The disconnected-events poll as a suspendable operation (poll_begin / poll_end): whatever
+   was delivered while it was hanging, a FAILED poll changes nothing ... *)
+Theorem bcast_failed_poll_changes_nothing : forall c i h,
+  final_ops c (poll_begin i ++ h ++ poll_end i PollFail) = final_ops c h.
+Proof. exact (failed_poll_changes_nothing 98). Qed.
+
+(* ... so an advertisement accepted while the poll was hanging is still ignored as a replay after
+   the poll failed (no accepted number is ever un-accepted) *)
+Theorem bcast_replay_after_failed_poll : forall c i hdr body h2 j p k n,
+  wf_ctrl c ->
+  nth_error c j = Some p -> p_key p = Some k ->
+  accepts c (hdr, body) j n ->
+  let c2 := final_ops c (poll_begin i ++ (OAdv (hdr, body) :: map OAdv h2) ++ poll_end i PollFail) in
+  let r := detect c2 (hdr, body) in
+  sn_at (fst (fst r)) j = sn_at c2 j /\ calls_for (p_id p) (snd r) = [].
+Proof. exact (replay_after_failed_poll 98). Qed.
+
 (* roll-over as the code handles it (number := 1 AND a new key): old epoch ignored, new
    epoch accepted, a restart keeps the new key *)
 Example c18_rollover_with_rotation :
@@ -350,3 +367,5 @@ Print Assumptions bcast_dead_at_max.
 Print Assumptions bcast_rotated_old_key_ignored.
 Print Assumptions bcast_setkey_needs_signature_char.
 Print Assumptions bcast_rollover_event_safe.
+Print Assumptions bcast_failed_poll_changes_nothing.
+Print Assumptions bcast_replay_after_failed_poll.
